@@ -102,6 +102,13 @@ def sealBlock (ck : CkType) (blockType : Nat) (payload : Bytes) : Bytes :=
 inductive ReadErr | decode | checksum | io
   deriving Repr, DecidableEq, Inhabited
 
+instance {α : Type} [DecidableEq α] : DecidableEq (Except ReadErr α) := fun a b =>
+  match a, b with
+  | .ok x, .ok y => if h : x = y then isTrue (by rw [h]) else isFalse (by intro e; cases e; exact h rfl)
+  | .error x, .error y => if h : x = y then isTrue (by rw [h]) else isFalse (by intro e; cases e; exact h rfl)
+  | .ok _, .error _ => isFalse (by intro e; cases e)
+  | .error _, .ok _ => isFalse (by intro e; cases e)
+
 /-- `BlockMeta::decode` on the last 16 bytes + `verify_checksum` (only when `verify`).
 Returns (block type, payload). -/
 def openBlock (verify : Bool) (block : Bytes) : Except ReadErr (Nat × Bytes) :=
@@ -167,9 +174,11 @@ def INDEX_FOOTER_SIZE : Nat := 24
 
 /-- entries ++ magic(4) ++ count(8) ++ cktype(4) ++ cksum(8), all big endian; the checksum
 covers the entries only (not magic / count / cktype). -/
+def sealIndexWith (entries : Bytes) (count : Nat) (ck : CkType) (cksum : Nat) : Bytes :=
+  entries ++ beBytes 4 SECONDARY_INDEX_MAGIC ++ beBytes 8 count ++ beBytes 4 ck.code ++ beBytes 8 cksum
+
 def sealIndex (ck : CkType) (count : Nat) (entries : Bytes) : Bytes :=
-  entries ++ beBytes 4 SECONDARY_INDEX_MAGIC ++ beBytes 8 count ++ beBytes 4 ck.code
-    ++ beBytes 8 (buildChecksum ck entries)
+  sealIndexWith entries count ck (buildChecksum ck entries)
 
 /-- Footer part of `ColumnIndex::from_bytes`: returns (entry count, entry bytes).  (Slicing
 `data[..len-24]` on a shorter file panics in the implementation: class `decode` here; the
